@@ -22,7 +22,9 @@ def seeded_table():
             if v["result"] == "caught" and v.get("first"):
                 first = v["first"][0].replace("clause=", "").replace("|", "/")[:110]
                 break
-        if m.get("neutralised"):
+        if m.get("not_a_violation"):
+            caught.append("judged not to violate the property as stated (see meta.json)")
+        elif m.get("neutralised"):
             caught.append("no longer a violation since fix D29 (see meta.json)")
         conf = "yes" if ev.get("confirmed") else f"NO (demo {ev.get('demo_without')}/{ev.get('demo_with')}, tests: {ev.get('repo_tests')})"
         summ = str(m.get("summary", "")).replace("|", "/").replace("\n", " ")[:260]
